@@ -10,6 +10,7 @@ rule = ("SMA, WMA, SD, MAD, MIN, MAX, FAST, BB, CCI (last n) and ROC, ER, MFI (l
         "by a suffix; slot 1 is a fresh instance fed only the suffix; once the suffix is at least n (n+1) long, the outputs are compared at "
         "every further step: exactly for the comparison-only indicators, within tau(t)*maxmag(history) (variances for SD/BB widths; times the "
         "condition number for the ratios) for the accumulating ones. All runs are also compared bit-exactly with the float model (T1). "
+        "Every third bar case has a grid prefix (equal neighbouring typical prices with volume); plus the K7 and K8 witnesses. "
         "Non-trivial: distinct case whose prefix is longer than the period and whose suffix extends >= 2 steps beyond n")
 assumptions = ["condition numbers of the ratio indicators are estimated in double precision from the suffix window"]
 
